@@ -57,6 +57,19 @@ SCENARIOS = {
                    _ap([2, 2], aff='low', prio=3),
                    _ap([1, 1], aff='cache', prio=9, limits={'cell': 1})],
         groups={}, apps=['a1', 'a2', 'a3', 'a4', 'a5', 'a6']),
+    # every server filled by low-priority instances, then several instances with
+    # affinity limits arrive together and can only evict their way in
+    'evict': dict(
+        dims=2, racks={'r1': ['s1', 's2'], 'r2': ['s3', 's4']}, pods={'p1': ['r1', 'r2']},
+        sprofiles=[_sp([1, 1]), _sp([2, 2])],
+        server_init={'s1': 1, 's2': 1, 's3': 1, 's4': 1},
+        allocs={'x': _al(), 'y': _al(rank=90)},
+        aprofiles=[_ap([1, 1], aff='low', prio=1),
+                   _ap([1, 1], aff='web', prio=5, limits={'rack': 1}),
+                   _ap([1, 1], aff='db', prio=7, limits={'pod': 1}),
+                   _ap([1, 1], aff='kv', prio=6, limits={'rack': 1, 'cell': 2}, alloc='y'),
+                   _ap([1, 1], aff='bg', prio=2)],
+        groups={}, apps=['a1', 'a2', 'a3', 'a4', 'a5', 'a6', 'a7']),
     # identities: grow, shrink, delete, blacklist, schedule-once
     'identity': dict(
         dims=2, racks={'r1': ['s1', 's2']}, pods={},
@@ -313,6 +326,31 @@ WEIGHTS = {
     'identity': dict(DEFAULT_W, Group=20, Submit=22, RemoveApp=8, Blacklist=8, RemoveServer=6,
                      AddServer=5, State=6, Tick=3),
 }
+
+
+def gen_evict(scn, rng):
+    """Capacity pressure: the servers are first filled with the lowest-priority
+    instances (one cycle), then several higher-priority instances - mostly of
+    ONE affinity - arrive together and can only get in by evicting."""
+    profs = scn['aprofiles']
+    lowp = min(p['prio'] for p in profs)
+    low = [i + 1 for i, p in enumerate(profs) if p['prio'] <= lowp + 1 and not p['limits']]
+    high = [i + 1 for i, p in enumerate(profs) if p['prio'] > lowp + 1]
+    if not low or not high:
+        return gen_random(scn, rng, 10)
+    apps = list(scn['apps'])
+    rng.shuffle(apps)
+    k = rng.randrange(2, 4)
+    fillers, late = apps[:-k], apps[-k:]
+    h = [('Submit', [a, rng.choice(low)]) for a in fillers] + [('Cycle', [])]
+    main = rng.choice(high)
+    for a in late:
+        h.append(('Submit', [a, main if rng.random() < 0.75 else rng.choice(high)]))
+    h.append(('Cycle', []))
+    if rng.random() < 0.4:
+        victim = rng.choice(fillers)
+        h += [('RemoveApp', [victim]), ('Submit', [victim, rng.choice(high)]), ('Cycle', [])]
+    return h
 
 
 def gen_random(scn, rng, depth, weights=None):
